@@ -224,4 +224,19 @@ theorem given_storage_is_used {σ : Type} :
 
 example : chooseStorage (some (7 : Nat)) [0x2f, 0x78] = .given 7 := (given_storage_is_used.1 7 _)
 
+/-- The resume clause as the SERVER sees it: the first message a client started on a store holding `s` writes goes
+to `s`'s address, is not plain text (no key exchange), carries `s`'s salt, and is labelled with the key id derived
+from `s`'s KEY — `SHA1(key)[12:20]` for whatever hash function stands for SHA-1 — whatever the `hash` field of
+the stored session contains (right, wrong, of another length, empty: `s.hash` does not occur in the conclusion). -/
+theorem resume_on_the_wire (sha1 : Bytes → Bytes) (p : Path) (fs : FS) (s : Session) (m : Nat) (host : Bytes)
+    (hs : s.Good) (hfile : fs.stat p = some (.file (writeSession s) m)) :
+    ∃ c, newClient (Loader.new p) fs host = .ok c ∧
+      c.firstMessage sha1 = { plain := false, keyId := ((sha1 s.key).drop 12).take 8, salt := s.salt, addr := s.hostname } := by
+  obtain ⟨c, hc, he, _, hk, _, hsalt, ha⟩ := resume_skips_exchange p fs s m host hs hfile
+  exact ⟨c, hc, by simp [Client.firstMessage, keyIdOf, he, hk, hsalt, ha]⟩
+
+example : (Client.firstMessage (fun k => k ++ k ++ k ++ k ++ k)
+      { encrypted := true, authKey := [1, 2, 3, 4], authKeyHash := [9, 9, 9, 9, 9, 9, 9, 9], serverSalt := -2, addr := [0x68] }).keyId
+    = [1, 2, 3, 4, 1, 2, 3, 4] := by decide
+
 end Mtv.Session
